@@ -23,7 +23,19 @@ func main() {
 	version := flag.Bool("version", false, "print version")
 	list := flag.Bool("list", false, "list properties")
 	dumpFuncs := flag.Bool("dump-funcs", false, "print the declared functions of the module as JSON (baseline table)")
+	dumpFields := flag.Bool("dump-fields", false, "print the struct fields of the module as JSON (baseline table)")
 	flag.Parse()
+	if *dumpFields {
+		abs, _ := filepath.Abs(*repo)
+		prog, err := core.Load(abs, false)
+		if err != nil {
+			fmt.Fprintln(os.Stderr, err)
+			os.Exit(2)
+		}
+		b, _ := json.MarshalIndent(prog.DeclaredFields(), "", " ")
+		fmt.Println(string(b))
+		return
+	}
 	if *dumpFuncs {
 		abs, _ := filepath.Abs(*repo)
 		prog, err := core.Load(abs, false)
@@ -31,7 +43,7 @@ func main() {
 			fmt.Fprintln(os.Stderr, err)
 			os.Exit(2)
 		}
-		b, _ := json.MarshalIndent(prog.DeclaredFuncs(), "", " ")
+		b, _ := json.MarshalIndent(prog.DeclaredFuncSigs(), "", " ")
 		fmt.Println(string(b))
 		return
 	}
@@ -79,6 +91,27 @@ func main() {
 		// fails closed: an unanalysable tree is not a passing tree
 		rep.Fail("load", "packages", "-", err.Error())
 		os.Exit(rep.Finish(*verif, known))
+	}
+	// functions renamed since the audited tree keep their old name in keys and name-based anchors
+	if _, sigs, err := core.LoadBaselineSigs(filepath.Join(*verif, "tables", "baseline_funcs.json")); err == nil {
+		if ren := prog.ResolveRenames(sigs); len(ren) > 0 {
+			var l []string
+			for n, o := range ren {
+				l = append(l, o+" -> "+n)
+			}
+			sort.Strings(l)
+			fmt.Printf("note: %d function(s) renamed since the audited tree are analysed under their old name: %v\n", len(ren), l)
+		}
+	}
+	if bf, err := core.LoadBaselineFields(filepath.Join(*verif, "tables", "baseline_fields.json")); err == nil {
+		if ren := prog.ResolveFieldRenames(bf); len(ren) > 0 {
+			var l []string
+			for n, o := range ren {
+				l = append(l, n+" (was "+o+")")
+			}
+			sort.Strings(l)
+			fmt.Printf("note: %d struct field(s) renamed since the audited tree are analysed under their old name: %v\n", len(ren), l)
+		}
 	}
 	runOn := func(pg *core.Prog, rp *core.Report) {
 		rp.Count("module_packages", len(pg.Pkgs))
